@@ -205,22 +205,22 @@ func (g *sgen) keyTy(ntd int) *ty {
 
 // genTy draws a type expression; typedefs with index < ntd may be referenced.
 func (g *sgen) genTy(depth, ntd int) *ty {
-	k := rapid.IntRange(0, 13).Draw(g.rt, "tykind")
-	if depth >= 2 && k >= 5 && k <= 9 {
+	k := rapid.IntRange(0, 15).Draw(g.rt, "tykind")
+	if depth >= 2 && k >= 4 && k <= 11 {
 		k = 0
 	}
 	switch {
-	case k <= 2:
+	case k <= 1:
 		return &ty{kind: tBase, name: rapid.SampledFrom(basePool).Draw(g.rt, "base")}
-	case k <= 4:
+	case k <= 3:
 		return &ty{kind: tStruct, name: rapid.SampledFrom(g.s.structs).Draw(g.rt, "st").name}
-	case k == 5 || k == 6:
+	case k == 4 || k == 5:
 		return &ty{kind: tList, val: g.genTy(depth+1, ntd)}
-	case k == 7:
+	case k == 6:
 		return &ty{kind: tSet, val: g.genTy(depth+1, ntd)}
-	case k == 8 || k == 9:
+	case k >= 7 && k <= 11:
 		return &ty{kind: tMap, key: g.keyTy(ntd), val: g.genTy(depth+1, ntd)}
-	case k == 10:
+	case k == 12:
 		if len(g.s.enums) > 0 {
 			return &ty{kind: tEnum, name: g.s.enums[0]}
 		}
@@ -242,11 +242,11 @@ func genSchema(rt *rapid.T) *schema {
 	if rapid.IntRange(0, 2).Draw(rt, "enum") > 0 {
 		g.s.enums = []string{"E0"}
 	}
-	ntd := rapid.IntRange(0, 3).Draw(rt, "ntypedefs")
+	ntd := rapid.SampledFrom([]int{0, 0, 1, 2, 3}).Draw(rt, "ntypedefs")
 	for i := 0; i < ntd; i++ {
 		g.s.typedefs = append(g.s.typedefs, &tdef{name: fmt.Sprintf("T%d", i), ty: g.genTy(0, i)})
 	}
-	negOK := true
+	negOK := rapid.IntRange(0, 3).Draw(rt, "neg_ids") == 0
 	for si, st := range g.s.structs {
 		lo := 1
 		if si > 0 && rapid.IntRange(0, 15).Draw(rt, "emptystruct") == 0 {
@@ -261,7 +261,7 @@ func genSchema(rt *rapid.T) *schema {
 			var id int
 			// the first field of every struct has a non-negative id so that a path can
 			// always be built when negative ids are excluded by a known finding
-			if fi > 0 && negOK && rapid.IntRange(0, 5).Draw(rt, "negid") == 0 {
+			if fi > 0 && negOK && rapid.IntRange(0, 3).Draw(rt, "negid") == 0 {
 				id = rapid.SampledFrom(negIDPool).Draw(rt, "nid")
 			} else {
 				id = rapid.SampledFrom(idPool).Draw(rt, "id")
